@@ -152,7 +152,9 @@ def impl(line):
             if name == 'lsb': return show_buf(Acts.least_significant_bits(f, T.nat()))
         if op == 'umcompress':
             # a ContextManager built on an explicit (semantic / predictive) PacketParser instead of a registry id
-            pp = mk_stack(T.next()); rules = p_rules(T); pk = mk_buf(T.next()); d = DirectionIndicator(DIRS[T.next()]); st = strat(T.next())
+            sspec = T.next(); rules = p_rules(T); pk = mk_buf(T.next()); d = DirectionIndicator(DIRS[T.next()]); st = strat(T.next())
+            # `id=<registry id>`: the parser given as a string, resolved by the manager through the registry
+            pp = unesc(sspec[3:]) if sspec.startswith('id=') else mk_stack(sspec)
             cm = ContextManager(Context(id='c', description='', interface_id='i', parser_id='CoAP', ruleset=[mk_rule(r) for r in rules]), parser=pp)
             c = cm.compress(pk, direction=d, match_strategy=st)
             return show_buf(c) if c is not None else 'None'
@@ -326,6 +328,9 @@ def oracle(line, out):
         if 'unparsable' in meta and out != 'err:ParserError': v.append(('C15', f'unparsable packet: got {out}'))
         if op == 'mroundtrip' and 'c01' in meta:
             if err or out.split(' ')[1][2:] != pk[2:]: v.append(('C01', f'manager round trip gives {out} for {pk}'))
+        if op == 'mroundtrip' and 'c01cut' in meta:
+            if err and err != 'ParserError': v.append(('C01', f'manager round trip of a packet cut inside a byte raised {err}'))
+            if not err and out.split(' ')[1][2:] != pk[2:]: v.append(('C01', f'manager round trip gives {out} for {pk}'))
         if op == 'mroundtrip' and 'c18m' in meta:
             if err or out.split(' ')[1][2:] != pk[2:]: v.append(('C18', f'manager round trip with direction-specific descriptors gives {out} for {pk}'))
         if op == 'mroundtrip' and 'c09' in meta:
@@ -534,6 +539,13 @@ def gen(props, tier, rng):
                     d = rng.choice('UD')
                     # the strategies may pick another matching rule of the set: all of them are lossless and fitting by construction
                     yield f'schc mroundtrip {esc(stack)} {e_rules(rs)} {raw} {d} {st} # {tags}'
+            if 'C01' in props and stack in ('UDP', 'CoAP', 'IPv6-UDP-CoAP', 'IPv4-UDP-CoAP') and len(data) * 8 > 8:
+                # the same packet cut inside its last byte (the parsers take what is there), in a LEFT- and in a RIGHT-padded
+                # Buffer — IP parsers accept only left padding —: no computed fields (the lengths no longer hold), every descriptor lossless
+                cutbits = packets.bits_of(data)[:len(data) * 8 - rng.randrange(1, 8)]
+                side = rng.choice('LR') if stack in ('UDP', 'CoAP') else 'L'
+                rplain = {'id': abuf(rulegen.rbits(rng, rng.randrange(1, 7))), 'nature': 'n', 'fields': []}
+                yield f"schc mroundtrip {esc(stack)} {e_rules([rplain])} {side}:{cutbits} {rng.choice('UD')} {rng.choice(['first', 'best'])} # c01cut"
             if props & {'C01', 'C09', 'C18'}:
                 # Up / Dw alternatives in front of (and between) compute fields: positions of the compute fields count
                 # in the list of descriptors of the packet's direction, not in the whole rule
@@ -856,7 +868,8 @@ def _gen_unparser(rng, q, props):
 def _gen_c15_explicit(rng, q):
     """well-formed and damaged packets through explicit stacks (CoAP options in semantic mode, next-header prediction):
     whatever happens, only the library's own errors may come out"""
-    specs = [('IPv6+UDP+CoAPs', 'IPv6-UDP-CoAP'), ('IPv4+UDP+CoAPs', 'IPv4-UDP-CoAP'), ('CoAPs', 'CoAP'), ('IPv6p', 'IPv6-UDP-CoAP'), ('UDPp', 'UDP')]
+    specs = [('IPv6+UDP+CoAPs', 'IPv6-UDP-CoAP'), ('IPv4+UDP+CoAPs', 'IPv4-UDP-CoAP'), ('CoAPs', 'CoAP'), ('IPv6p', 'IPv6-UDP-CoAP'), ('UDPp', 'UDP'),
+             ('id=IPv6-UDP-CoAP', 'IPv6-UDP-CoAP'), ('id=IPv4', 'IPv4-UDP-CoAP')]
     for i in range(30 if q else 300):
         stackspec, cfg = specs[i % len(specs)]
         data, _, _ = packets.gen_stack_packet(rng, cfg, correct=True, coap_style=['small', 'mixed', 'boundary', 'none'][i % 4])
@@ -875,7 +888,7 @@ def _gen_c15_explicit(rng, q):
             bits = 'L:' + packets.bits_of(m)
             yield f"schc umcompress {stackspec} {e_rules(dflt)} {bits} {rng.choice('UD')} {rng.choice(['first', 'best'])}"
             yield f"schc umcompress {stackspec} 0 {bits} {rng.choice('UD')} {rng.choice(['first', 'best'])} # nomatch"
-            yield f"schc uroundtrip {stackspec} {rng.choice(['v', 'vn', 'nl'])} L:1 {bits} {rng.choice('UD-')} # c15u"
+            if not stackspec.startswith('id='): yield f"schc uroundtrip {stackspec} {rng.choice(['v', 'vn', 'nl'])} L:1 {bits} {rng.choice('UD-')} # c15u"
 
 def _gen_c15(rng, q):
     yield from _gen_c15_explicit(rng, q)
